@@ -2403,3 +2403,8 @@ mod tests {
         }
     }
 }
+
+// verification hook (guard: cfg(kani)); contract harnesses live outside the repository
+#[cfg(kani)]
+#[path = "/verif/kani/ntp_proto/packet/mod.rs"]
+mod verif;
